@@ -753,6 +753,9 @@ def c29(scn, run):
         for o in {_norm_out(x) for x in forced_out}:
             for child in g[tuple(tid_)]["children"].get(o, []):
                 c = tuple(child)
+                if any(a["abs"] and tuple(a["id"]) == tuple(tid_) and a["out"] == o
+                       for ex in g[c]["prereqs"] for a in S.atoms_c(ex)) and c[0] != tid_[0]:
+                    continue     # dependents through an absolute trigger are satisfied when they spawn, not spawned by it
                 if c in pool:
                     sat = {(k[0], k[1], _norm_out(k[2])) for pre in pool[c]["prereqs"] for k, v in pre if v}
                     if (tid_[0], tid_[1], o) not in sat:
@@ -855,6 +858,10 @@ def c28(scn, run):
                 before = {tuple(t["id"]): t for t in e["snap"]["tasks"]}
     subs_after = {}
     out_after = set()
+    # a group-start member with a live job is left to finish: what it had already completed counts
+    for m_, t_ in before.items():
+        if m_ in group and t_["status"] in ("preparing", "submitted", "running"):
+            out_after |= {(m_[0], m_[1], _norm_out(o)) for o in t_["outputs"]}
     order = []
     for (n, evs) in ticks[t_idx:]:
         for e in evs:
@@ -865,6 +872,12 @@ def c28(scn, run):
             elif e["e"] == "output":
                 for o in e["out"]:
                     out_after.add((e["id"][0], e["id"][1], _norm_out(o)))
+            elif e["e"] == "deliver":
+                # (a member re-triggered in place keeps the outputs of its earlier job: the new job's message
+                # completes nothing new, yet it is what spawns / satisfies the children)
+                out_after.add((e["id"][0], e["id"][1], _norm_out(e["message"])))
+                for o in IMPLIED.get(_norm_out(e["message"]), ()):
+                    out_after.add((e["id"][0], e["id"][1], o))
     tries = scn.get("tries", {})
     for m in group:
         in_group_parents = [a for ex in g[m]["prereqs"] for a in S.atoms_c(ex) if tuple(a["id"]) in group and not a["pre"]]
@@ -875,12 +888,17 @@ def c28(scn, run):
             return f"member {list(m)} was submitted {subs_after[m]} times after one trigger"
     ended = run["meta"].get("stop") in ("AUTOMATIC", "quiescent")
     any_failed = any(e["e"] == "output" and ("failed" in e["out"] or "submit-failed" in e["out"]) for e in run["trace"])
-    if ended and not any_failed and not scn.get("queues"):
+    shut = [n for (n, evs) in ticks for e in evs if e["e"] == "shutdown"]
+    t_tick = ticks[t_idx][0]
+    acted = any(e["e"] in ("cmd_remove", "manual") for (n, evs) in ticks[t_idx:t_idx + 2] for e in evs)
+    if ended and not any_failed and not scn.get("queues") and acted and (not shut or shut[0] > t_tick + 3):
         done_before = {tuple(t["id"]) for (n, evs) in ticks[:t_idx] for e in evs if e["e"] == "remove" and e["reason"] == "completed"
                        for t in [e["t"]]}
         for m in sorted(group):
             live = m in before and before[m]["status"] in ("preparing", "submitted", "running")
-            if subs_after.get(m, 0) == 0 and not live:
+            due = all(S.eval_c(ex, lambda a: (tuple(a["id"]) not in group) or (a["id"][0], a["id"][1], a["out"]) in out_after)
+                      for ex in g[m]["prereqs"])       # (e.g. a member waiting for a:failed need not run if a succeeded)
+            if subs_after.get(m, 0) == 0 and not live and due:
                 return (f"member {list(m)} of the triggered group never ran after the trigger although every job of the run "
                         f"succeeded (each member must run once more{'; it had finished before' if m in done_before else ''})")
     for kind, m, outs in order:
